@@ -363,3 +363,96 @@ pub fn gen_nat(seed: u64, n: usize) -> Vec<Scenario> {
     }
     v
 }
+
+/// Codec family (C02 / C11): a systematic sweep of configuration cell x family x privilege x quotation
+/// form x boundary initial sequences, sizes, tos and patterns, with foreign datagrams injected.
+pub fn gen_codec(seed: u64, n: usize) -> Vec<Scenario> {
+    let mut rng = StdRng::seed_from_u64(seed ^ 0x5eed_0002);
+    let mut combos = Vec::new();
+    for cell in CELLS {
+        for fam in [4u8, 6] {
+            for privileged in [true, false] {
+                if !privileged && !cell.3 {
+                    continue;
+                }
+                for quote in [0u8, 1, 2, 3, 4] {
+                    combos.push((cell, fam, privileged, quote));
+                }
+            }
+        }
+    }
+    let inits = [0u16, 1, 255, 256, 32767, 33434, 50000, 63999, 64000, 64511];
+    let start = (seed as usize).wrapping_mul(7919) % combos.len();
+    (0..n)
+        .map(|i| {
+            let (cell, fam, privileged, quote) = combos[(start + i) % combos.len()];
+            let mut sc = Scenario {
+                id: format!("codec-{seed}-{i}"),
+                seed: rng.random(),
+                ..Scenario::default()
+            };
+            sc.proto = cell.0.into();
+            sc.strat = cell.1.into();
+            sc.ports = cell.2.into();
+            sc.fam = fam;
+            sc.privileged = privileged;
+            sc.sport = *pick(&mut rng, &[1024, 5000, 33434, 65535]);
+            sc.dport = *pick(&mut rng, &[1, 80, 33434, 65535]);
+            sc.ext = rng.random_bool(0.5);
+            sc.trace_id = *pick(&mut rng, &[1, 2, 255, 256, 4660, 65535]);
+            sc.init_seq = inits[(i / combos.len() + i) % inits.len()];
+            sc.packet_size = if fam == 4 { *pick(&mut rng, &[28, 29, 30, 56, 84, 127, 128, 200, 576, 1023, 1024]) } else { *pick(&mut rng, &[48, 49, 50, 84, 128, 200, 576, 1023, 1024]) };
+            sc.pattern = *pick(&mut rng, &[0, 1, 0x55, 0xaa, 0xff]);
+            sc.tos = *pick(&mut rng, &[0, 1, 0x10, 0xb8, 0xfe, 0xff]);
+            let dist = rng.random_range(2..=7u8);
+            let mut hops = Vec::new();
+            for h in 0..dist - 1 {
+                let mut hop = Hop {
+                    addr: 300 + u16::from(h) + 1,
+                    quote,
+                    ..Hop::default()
+                };
+                if rng.random_range(0..3) == 0 {
+                    hop.tos_rewrite = rng.random_range(1..=255);
+                }
+                if quote == 2 || quote == 3 {
+                    let m = rng.random_range(0..=3);
+                    for j in 0..m {
+                        hop.mpls.push(MplsMember2 {
+                            label: rng.random_range(0..(1 << 20)),
+                            exp: rng.random_range(0..8),
+                            bos: u8::from(j == m - 1),
+                            ttl: rng.random(),
+                        });
+                    }
+                }
+                hops.push(hop);
+            }
+            sc.topo = Topo {
+                paths: vec![Path {
+                    hops,
+                    dist,
+                    target_silent: false,
+                    tcp: if rng.random_bool(0.5) { "synack".into() } else { "rst".into() },
+                }],
+                ..Topo::default()
+            };
+            isolate_f2(&mut sc);
+            sc.first_ttl = *pick(&mut rng, &[1, 1, 2]);
+            sc.max_ttl = *pick(&mut rng, &[8, 30, 254]);
+            sc.max_inflight = 24;
+            sc.max_rounds = 3;
+            sc.read_timeout_us = 1_000;
+            sc.max_round_us = 40_000;
+            sc.min_round_us = 5_000;
+            sc.grace_us = 2_000;
+            sc.tcp_timeout_us = 40_000;
+            sc.net.hop_delay_us = 500;
+            sc.net.jitter_us = 300;
+            sc.noise.foreign_pct = 40;
+            sc.log_wire = true;
+            sc.snap = "lite".into();
+            sc
+        })
+        .collect()
+}
